@@ -675,4 +675,314 @@ theorem C13_step_application (n : Node) (op : Op) (u : Nat) (i : AppInst) (h : n
     simp only [Node.step]
     split <;> exact quiet _ rfl (by intros; simp) (by intros; simp) rfl rfl
 
+/-! ## 3. acceptance -/
+
+/-- documented source states of each service request (masking table; `disable`/`compromise` have no state condition) -/
+def svcSources : SvcReq → List SvcState
+  | .scan => [.running] | .stop => [.running] | .start => [.stopped] | .pause => [.running]
+  | .resume => [.paused] | .restart => [.running] | .enable => [.disabled] | .fix => [.running]
+  | .disable => SvcState.all | .compromise => SvcState.all
+
+def appSources : AppReq → List AppState
+  | .scan => [.running] | .close => [.running] | .fix => [.running] | .compromise => AppState.all
+
+/-- the documented sources are the validators of the routes -/
+theorem C13_sources_are_validators :
+    (∀ r st, st ∈ svcSources r ↔ SvcReq.passes r st = true) ∧ (∀ r st, st ∈ appSources r ↔ AppReq.passes r st = true) := by
+  constructor
+  · intro r st; cases r <;> cases st <;> simp [svcSources, SvcReq.passes, SvcReq.validator, SvcState.all]
+  · intro r st; cases r <;> cases st <;> simp [appSources, AppReq.passes, AppReq.validator, AppState.all]
+
+/-- **A lifecycle request that reached a service on an ON node succeeds iff the service is in a documented source
+state of that request** (both directions, every state, every value of the other fields). -/
+theorem C13_service_request_accepted_iff (s : Svc) (r : SvcReq) (hr : r ≠ .fix) :
+    (s.request r).2 = .success ↔ s.st ∈ svcSources r := by
+  rcases s with ⟨st, cd, dur, sw⟩
+  cases r <;> first
+    | exact absurd rfl hr
+    | (cases st <;> simp [Svc.request, SvcReq.passes, SvcReq.validator, SvcReq.ev, Svc.apply, Svc.start, Svc.stop, Svc.pause,
+        Svc.resume, Svc.restart, Svc.disable, Svc.enable, Status.ofBool, svcSources, SvcState.all])
+
+/-- `fix` additionally needs something to fix: health GOOD or COMPROMISED (`Software.fix`). -/
+theorem C13_service_fix_accepted_iff (s : Svc) :
+    (s.request .fix).2 = .success ↔ s.st = .running ∧ (s.sw.actual = .good ∨ s.sw.actual = .compromised) := by
+  rcases s with ⟨st, cd, dur, ⟨actual, visible, fixCd, fixDur, fixCount⟩⟩
+  cases st <;> cases actual <;>
+    simp [Svc.request, SvcReq.passes, SvcReq.validator, SvcReq.ev, Svc.apply, Soft.fix, Status.ofBool]
+
+theorem C13_application_request_accepted_iff (a : App) (r : AppReq) (hr : r ≠ .fix) :
+    (a.request r).2 = .success ↔ a.st ∈ appSources r := by
+  rcases a with ⟨st, cd, dur, sw⟩
+  cases r <;> first
+    | exact absurd rfl hr
+    | (cases st <;> simp [App.request, AppReq.passes, AppReq.validator, AppReq.ev, App.apply, Status.ofBool, appSources, AppState.all])
+
+theorem C13_application_fix_accepted_iff (a : App) :
+    (a.request .fix).2 = .success ↔ a.st = .running ∧ (a.sw.actual = .good ∨ a.sw.actual = .compromised) := by
+  rcases a with ⟨st, cd, dur, ⟨actual, visible, fixCd, fixDur, fixCount⟩⟩
+  cases st <;> cases actual <;>
+    simp [App.request, AppReq.passes, AppReq.validator, AppReq.ev, App.apply, Soft.fix, Status.ofBool]
+
+/-- a refused request changes nothing in the instance -/
+theorem C13_service_refused_unchanged (s : Svc) (r : SvcReq) (h : (s.request r).2 ≠ .success) : (s.request r).1 = s := by
+  rcases s with ⟨st, cd, dur, ⟨actual, visible, fixCd, fixDur, fixCount⟩⟩
+  revert h
+  cases r <;> cases st <;>
+    simp [Svc.request, SvcReq.passes, SvcReq.validator, SvcReq.ev, Svc.apply, Svc.start, Svc.stop, Svc.pause,
+      Svc.resume, Svc.restart, Svc.disable, Svc.enable, Status.ofBool] <;>
+    (cases actual <;> simp [Soft.fix])
+
+theorem C13_application_refused_unchanged (a : App) (r : AppReq) (h : (a.request r).2 ≠ .success) : (a.request r).1 = a := by
+  rcases a with ⟨st, cd, dur, ⟨actual, visible, fixCd, fixDur, fixCount⟩⟩
+  revert h
+  cases r <;> cases st <;>
+    simp [App.request, AppReq.passes, AppReq.validator, AppReq.ev, App.apply, Status.ofBool] <;>
+    (cases actual <;> simp [Soft.fix])
+
+/-- **Node level, both directions:** the request `[…, 'service', name, r]` answers `success` iff the node is ON, the
+name is routed to a service object whose request manager carries the generic routes, and that object is in a
+documented source state of `r`.  (Otherwise: `failure` when the node is not ON or the state is wrong,
+`unreachable` when nothing is routed under the name.) -/
+theorem C13_accepted_iff_source (n : Node) (name : String) (r : SvcReq) (hr : r ≠ .fix) :
+    n.svcReqOut name r = .status .success ↔
+      n.isOn = true ∧ ∃ u i, dget name n.svcRoutes = some u ∧ n.findSvc u = some i ∧ i.m.cls.baseRoutes = true ∧
+        i.s.st ∈ svcSources r := by
+  unfold Node.svcReqOut
+  cases hon : n.isOn
+  · simp
+  · cases hd : dget name n.svcRoutes with
+    | none => simp
+    | some u =>
+      cases hf : n.findSvc u with
+      | none => simp [hf]
+      | some i =>
+        cases hb : i.m.cls.baseRoutes
+        · simp [hf, hb]
+        · simp [hf, hb, C13_service_request_accepted_iff i.s r hr]
+
+theorem C13_application_accepted_iff_source (n : Node) (name : String) (r : AppReq) (hr : r ≠ .fix) :
+    n.appReqOut name r = .status .success ↔
+      n.isOn = true ∧ ∃ u i, dget name n.appRoutes = some u ∧ n.findApp u = some i ∧ i.m.cls.baseRoutes = true ∧
+        i.a.st ∈ appSources r := by
+  unfold Node.appReqOut
+  cases hon : n.isOn
+  · simp
+  · cases hd : dget name n.appRoutes with
+    | none => simp
+    | some u =>
+      cases hf : n.findApp u with
+      | none => simp [hf]
+      | some i =>
+        cases hb : i.m.cls.baseRoutes
+        · simp [hf, hb]
+        · simp [hf, hb, C13_application_request_accepted_iff i.a r hr]
+
+/-- non-vacuity: a RUNNING service routed on an ON node accepts `pause`, refuses `start` -/
+example :
+    let n : Node := ({} : Node).installSvc { name := "dns-client", port := 53, proto := 1, guarded := false } [] .good 2
+    n.svcReqOut "dns-client" .pause = .status .success ∧ n.svcReqOut "dns-client" .start = .status .failure ∧
+    n.svcReqOut "nope" .pause = .status .unreachable := by decide
+
+/-! ## 4. timing -/
+
+/-- while RESTARTING, nothing but `disable` and the tick touches the state or the countdown -/
+theorem svc_restarting_inert (s : Svc) (e : SvcEv) (hs : s.st = .restarting) (h1 : e ≠ .disable) (h2 : e ≠ .tick) :
+    (s.apply e).1.st = .restarting ∧ (s.apply e).1.cd = s.cd := by
+  rcases s with ⟨st, cd, dur, sw⟩
+  cases hs
+  cases e <;> first
+    | exact absurd rfl h1
+    | exact absurd rfl h2
+    | (rename_i on; cases on <;> simp [Svc.apply, Svc.start])
+    | simp [Svc.apply, Svc.stop, Svc.pause, Svc.resume, Svc.restart, Svc.enable]
+    | (simp only [Svc.apply]; split; simp)
+
+theorem svc_restarting_tick (s : Svc) (c : Int) (hs : s.st = .restarting) (hc : s.cd = some c) :
+    (s.apply .tick).1.cd = some (c - 1) ∧ (s.apply .tick).1.st = (if c ≤ 0 then .running else .restarting) := by
+  rcases s with ⟨st, cd, dur, sw⟩
+  cases hs; cases hc
+  simp [Svc.apply, Svc.tick]
+
+/-- **`restart_timing`.**  A service RESTARTING with countdown `c` (= `restart_duration` at the moment of the restart),
+under *any* sequence of events that does not `disable` it: it stays RESTARTING through its first `max(c,0)` ticks,
+counting down, whatever else is called on it in between … -/
+theorem C13_restart_timing_before (evs : List SvcEv) (s : Svc) (c : Int) (hs : s.st = .restarting) (hc : s.cd = some c)
+    (hd : SvcEv.disable ∉ evs) (hk : (evs.count .tick : Int) ≤ max c 0) :
+    (s.applyAll evs).st = .restarting ∧ (s.applyAll evs).cd = some (c - evs.count .tick) := by
+  induction evs generalizing s c with
+  | nil => simp [Svc.applyAll, hs, hc]
+  | cons e es ih =>
+    simp only [List.mem_cons, not_or] at hd
+    by_cases he : e = .tick
+    · subst he
+      simp only [List.count_cons_self] at hk ⊢
+      have hpos : ¬ c ≤ 0 := by omega
+      obtain ⟨h1, h2⟩ := svc_restarting_tick s c hs hc
+      simp only [hpos, if_false] at h2
+      have := ih (s.apply .tick).1 (c - 1) h2 h1 hd.2 (by omega)
+      simp only [Svc.applyAll]
+      refine ⟨this.1, ?_⟩
+      rw [this.2]; congr 1; push_cast; omega
+    · have hne : (e == SvcEv.tick) = false := by simpa using he
+      simp only [List.count_cons, hne] at hk ⊢
+      obtain ⟨h1, h2⟩ := svc_restarting_inert s e hs (fun h => hd.1 h.symm) he
+      have := ih (s.apply e).1 c h1 (h2.trans hc) hd.2 (by simpa using hk)
+      simp only [Svc.applyAll]
+      simpa using this
+
+/-- … and the tick after those, i.e. tick number `max(c,0) + 1` (= `d + 1` for `restart_duration = d ≥ 0`), makes it RUNNING. -/
+theorem C13_restart_timing_completes (pre : List SvcEv) (s : Svc) (c : Int) (hs : s.st = .restarting) (hc : s.cd = some c)
+    (hd : SvcEv.disable ∉ pre) (hk : (pre.count .tick : Int) = max c 0) :
+    (s.applyAll (pre ++ [.tick])).st = .running := by
+  obtain ⟨h1, h2⟩ := C13_restart_timing_before pre s c hs hc hd (by omega)
+  have happ : ∀ (l : List SvcEv) (s : Svc) (e : SvcEv), s.applyAll (l ++ [e]) = ((s.applyAll l).apply e).1 := by
+    intro l; induction l with
+    | nil => intro s e; rfl
+    | cons a t ih => intro s e; simp only [List.cons_append, Svc.applyAll]; exact ih _ _
+  rw [happ]
+  obtain ⟨_, h4⟩ := svc_restarting_tick (s.applyAll pre) _ h1 h2
+  rw [h4]
+  have : c - (pre.count .tick : Int) ≤ 0 := by omega
+  simp [this]
+
+/-- non-vacuity and the concrete figure: `restart_duration = 2`: RESTARTING after 2 ticks (with unrelated calls in
+between), RUNNING after the 3rd -/
+example :
+    let s : Svc := ((({ st := .running, dur := 2, sw := { actual := .good } } : Svc).apply .restart).1)
+    (s.applyAll [.tick, .pause, .scan, .tick]).st = .restarting ∧ (s.applyAll [.tick, .pause, .scan, .tick, .tick]).st = .running := by
+  decide
+
+/-- while INSTALLING, nothing but the tick touches the state or the countdown -/
+theorem app_installing_inert (a : App) (e : AppEv) (hs : a.st = .installing) (h1 : e ≠ .forceClosed) (h2 : e ≠ .tick) :
+    (a.apply e).1.st = .installing ∧ (a.apply e).1.cd = a.cd := by
+  rcases a with ⟨st, cd, dur, sw⟩
+  cases hs
+  cases e <;> first
+    | exact absurd rfl h1
+    | exact absurd rfl h2
+    | (rename_i on; cases on <;> simp [App.apply, App.run])
+    | simp [App.apply, App.close, App.install]
+    | (simp only [App.apply]; split; simp)
+
+theorem app_installing_tick (a : App) (c : Int) (hs : a.st = .installing) (hc : a.cd = some c) :
+    (a.apply .tick).1.st = (if c - 1 ≤ 0 then .running else .installing) ∧
+    (a.apply .tick).1.cd = (if c - 1 ≤ 0 then none else some (c - 1)) ∧
+    (c - 1 ≤ 0 → (a.apply .tick).1.sw.actual = .good) := by
+  rcases a with ⟨st, cd, dur, sw⟩
+  cases hs; cases hc
+  by_cases h : c - 1 ≤ 0 <;> simp [App.apply, App.tick, h]
+
+/-- **`install_timing`.**  An application INSTALLING with countdown `c` (= `install_duration`), under any sequence of
+method calls: still INSTALLING while fewer than `max(1,c)` ticks have reached it … -/
+theorem C13_install_timing_before (evs : List AppEv) (a : App) (c : Int) (hs : a.st = .installing) (hc : a.cd = some c)
+    (hd : AppEv.forceClosed ∉ evs) (hk : (evs.count .tick : Int) < max c 1) :
+    (a.applyAll evs).st = .installing ∧ (a.applyAll evs).cd = some (c - evs.count .tick) := by
+  induction evs generalizing a c with
+  | nil => simp [App.applyAll, hs, hc]
+  | cons e es ih =>
+    simp only [List.mem_cons, not_or] at hd
+    by_cases he : e = .tick
+    · subst he
+      simp only [List.count_cons_self] at hk ⊢
+      have hpos : ¬ c - 1 ≤ 0 := by omega
+      obtain ⟨h1, h2, _⟩ := app_installing_tick a c hs hc
+      simp only [hpos, if_false] at h1 h2
+      have := ih (a.apply .tick).1 (c - 1) h1 h2 hd.2 (by omega)
+      simp only [App.applyAll]
+      refine ⟨this.1, ?_⟩
+      rw [this.2]; congr 1; push_cast; omega
+    · have hne : (e == AppEv.tick) = false := by simpa using he
+      simp only [List.count_cons, hne] at hk ⊢
+      obtain ⟨h1, h2⟩ := app_installing_inert a e hs (fun h => hd.1 h.symm) he
+      have := ih (a.apply e).1 c h1 (h2.trans hc) hd.2 (by simpa using hk)
+      simp only [App.applyAll]
+      simpa using this
+
+/-- … and tick number `max(1,c)` makes it RUNNING with health GOOD and the countdown cleared. -/
+theorem C13_install_timing_completes (pre : List AppEv) (a : App) (c : Int) (hs : a.st = .installing) (hc : a.cd = some c)
+    (hd : AppEv.forceClosed ∉ pre) (hk : (pre.count .tick : Int) = max c 1 - 1) :
+    (a.applyAll (pre ++ [.tick])).st = .running ∧ (a.applyAll (pre ++ [.tick])).cd = none ∧
+    (a.applyAll (pre ++ [.tick])).sw.actual = .good := by
+  obtain ⟨h1, h2⟩ := C13_install_timing_before pre a c hs hc hd (by omega)
+  have happ : ∀ (l : List AppEv) (a : App) (e : AppEv), a.applyAll (l ++ [e]) = ((a.applyAll l).apply e).1 := by
+    intro l; induction l with
+    | nil => intro a e; rfl
+    | cons x t ih => intro a e; simp only [List.cons_append, App.applyAll]; exact ih _ _
+  rw [happ]
+  obtain ⟨h3, h4, h5⟩ := app_installing_tick (a.applyAll pre) _ h1 h2
+  have : c - (pre.count .tick : Int) - 1 ≤ 0 := by omega
+  simp only [this, if_true] at h3 h4
+  exact ⟨h3, h4, h5 this⟩
+
+example :
+    let a : App := ((({ st := .closed, dur := 2, sw := { actual := .good } } : App).apply .install).1)
+    (a.applyAll [.tick, .scan]).st = .installing ∧ (a.applyAll [.tick, .scan, .tick]).st = .running := by decide
+
+/-- `install_duration = 0` (and negative values) still take one tick: the first tick completes the install -/
+example : ((({ st := .closed, dur := 0, sw := { actual := .good } } : App).apply .install).1.applyAll [.tick]).st = .running := by
+  decide
+
+/-! ### which node operations deliver a tick / a `disable` / anything at all -/
+
+/-- **Ticks reach a service only from `Node.apply_timestep` while the node is ON after its power countdowns (and the
+service is in `node.services`), or from a direct call of its `apply_timestep`**: the countdown is suspended while
+the node is not ON. -/
+theorem C13_tick_delivered_iff (n : Node) (op : Op) (i : SvcInst) :
+    SvcEv.tick ∈ n.svcEvs op i ↔
+      (op = .tick ∧ n.services.contains i.m.uid = true ∧ n.powerTick.1 = .on) ∨ op = .svcApi i.m.uid .tick := by
+  cases op <;> simp only [Node.svcEvs]
+  case svcReq name r =>
+    constructor
+    · intro h
+      split at h
+      · split at h
+        · split at h
+          · simp only [List.mem_singleton] at h; cases r <;> simp [SvcReq.ev] at h
+          · simp at h
+        · simp at h
+      · simp at h
+    · simp
+  case svcApi u e =>
+    constructor
+    · intro h
+      split at h
+      · rename_i hu
+        split at h
+        · simp at h
+        · simp only [List.mem_singleton] at h; subst h; subst hu; exact Or.inr rfl
+      · simp at h
+    · rintro (h | h)
+      · simp at h
+      · cases h; simp
+  case tick =>
+    by_cases hc : n.services.contains i.m.uid = true
+    · cases hp : n.powerTick.1 <;> simp [hc, Node.ticks, hp, Node.fanSvc] <;> (cases n.fan .tick <;> simp)
+    · have hm : i.m.uid ∉ n.services := by simpa using hc
+      simp [hm]
+  all_goals
+    (simp only [Node.ticks, Node.fanSvc, Node.fan]
+     split <;> simp <;> (try split) <;> simp)
+
+/-- **Unrelated requests deliver nothing**: a service request routed to another object (or to nothing, or sent
+while the node is not ON) leaves this service without any event; application requests, install/uninstall of
+anything, payloads and frames never deliver a service event at all. -/
+theorem C13_unrelated_delivers_nothing (n : Node) (i : SvcInst) :
+    (∀ name r, dget name n.svcRoutes ≠ some i.m.uid → n.svcEvs (.svcReq name r) i = []) ∧
+    (∀ name r, n.svcEvs (.appReq name r) i = []) ∧
+    (∀ u e, n.svcEvs (.appApi u e) i = []) ∧
+    (∀ c l h f, n.svcEvs (.installSvc c l h f) i = [] ∧ n.svcEvs (.installApp c l h f) i = []) ∧
+    (∀ name c, n.svcEvs (.reqInstall name c) i = [] ∧ n.svcEvs (.reqUninstall name) i = [] ∧ n.svcEvs (.uninstall name) i = []) ∧
+    (∀ p pr sc h, n.svcEvs (.deliver p pr sc) i = [] ∧ n.svcEvs (.frame h sc) i = []) := by
+  refine ⟨?_, ?_, ?_, ?_, ?_, ?_⟩
+  · intro name r hne
+    simp only [Node.svcEvs]
+    split
+    · split
+      · rename_i u hu
+        have : ¬ u = i.m.uid := fun h => hne (h ▸ hu)
+        simp [this]
+      · rfl
+    · rfl
+  all_goals (intros; simp [Node.svcEvs, Node.fanSvc, Node.fan, Node.ticks])
+
 end Primaite.C13
